@@ -4,12 +4,16 @@ import xml.etree.ElementTree as ET
 from .. import common as C
 from .. import schema_harness as H
 from .. import translate_schema as TS
+from . import c01 as P01
 
 PROP = "C04"
-COQ_EXTRA = ["theories/Model/ConvertCases.vo", "theories/Gen/SchemaS.vo"]
+COQ_EXTRA = ["theories/Model/ConvertCases.vo", "theories/Gen/SchemaS.vo", "theories/Model/TypedCases.vo", "theories/Gen/TypedGen.vo"]
 IMPORTS = ["Model.Schema", "Model.Convert", "Model.ConvertCases", "Gen.SchemaGen", "Gen.SchemaS"]
-PARTIAL = ["enumerated value sets, maximum string length and maximum integer digits are enforced inside the element converters (C10's model); here the "
-           "theorem is 'whatever the converter refuses, both construction routes refuse' (converter_error_rejected) and the correspondence run feeds the real converters' verdicts",
+PARTIAL = ["enumerated value sets, maximum string length and maximum integer digits are enforced inside the element converters (C10's model): the generic theorem is "
+           "'whatever the converter refuses, both construction routes refuse' (converter_error_rejected, correspondence fed with the real converters' verdicts); "
+           "typed_limit_violation_rejected_kw / _tree and typed_at_limit_accepted state the limit clauses for the CONCRETE converters (conv_typed over the regenerated element-type table, "
+           "composition with C10's T_limits_strict / T_bad_text_rejected_on_read), and the value-limit mutants are also run through the typed model; Decimal scale and date-time "
+           "texts are C10's / C09's own obligations and are not restated here",
            "the sixteen validate_args hooks are modelled by hand (pinned by AST hash); construct_ok_iff states them as the boolean run_hook"]
 MANIFEST = {
     "engine": "Schema",
@@ -221,6 +225,7 @@ def run(rep, tier, rng):
         rep.broken.append("translator not complete: %s" % ctx.d["problems"][:3])
     per_class = 4 if tier == "thorough" else 1
     items, meta = [], []
+    titems, tmeta = [], []
     stats = {}
 
     def check_instance(inst, origin, replay):
@@ -270,7 +275,19 @@ def run(rep, tier, rng):
             if out[0] != "ok":
                 continue      # the reader rejects the writer's output: C01/C13
             for name, expect, m in tree_mutants(ctx, cls, tree, rng):
-                c, out, _ = H.case_from(ctx, m); items.append(c)
+                c, out, wt = H.case_from(ctx, m); items.append(c)
+                if name.split("boundary-")[-1] in ("over-long", "over-limit", "over-limit-negative", "foreign-token"):
+                    # the same document through the TYPED model (concrete converters of the C10 engine, no converter table): the limit clauses
+                    # typed_limit_violation_rejected_tree / typed_at_limit_accepted are about this composition
+                    try:
+                        tb = {}
+                        P01.dt_table_for_tree(ctx, m, tb)
+                        ttb = "[" + ";".join("(%s,%s,%s)" % (C.cbool(k[0]), C.ctext(k[1]), P01.enc_res_pyval(o)) for k, o in tb.items()) + "]"
+                        exp = H.enc_result(out, lambda i: "(%s,[%s])" % (P01.enc_pinst(ctx, i), ";".join(H.cs(t) for t in wt)))
+                        titems.append("TFrom %s %s (%s)" % (ttb, H.enc_etree(m), exp)); tmeta.append({"what": "typed from_etree", "cls": cls.__name__, "mutation": name, "xml": ET.tostring(m).decode()[:3000]})
+                        rep.count(titems[-1], kind="typed-tree:%s:%s" % (name, out[0]))
+                    except ValueError:
+                        pass
                 desc = {"route": "tree", "cls": cls.__name__, "mutation": name, "xml": ET.tostring(m).decode()[:3000]}
                 meta.append(dict(desc, what="from_etree"))
                 rep.count(c, kind="tree:%s:%s" % (name, out[0]))
@@ -291,6 +308,9 @@ def run(rep, tier, rng):
     bad = C.coq_bad_indices(PROP, "mutants", IMPORTS, "ccase_ok S", "ccase", items, shard=200, prelude="Local Open Scope string_scope.")
     for i in bad[:30]:
         rep.disagreements.append(dict(meta[i], case=items[i][:1500]))
+    bad = C.coq_bad_indices(PROP, "typedlimits", P01.TIMPORTS, "tcase_ok ety_table S", "tcase", titems, shard=150, prelude="Local Open Scope string_scope.")
+    for i in bad[:30]:
+        rep.disagreements.append(dict(tmeta[i], case=titems[i][:1500]))
 
 
 def replay(obj):
